@@ -1,4 +1,7 @@
 import EaModel.Tasks
+import EaModel.Lemmas.StartsOnce
+import EaModel.Lemmas.Tracked
+import EaModel.Lemmas.TrackedLive
 /-!
 # C12 — parallel task managers respect their bound and keep tasks alive
 
@@ -31,9 +34,9 @@ theorem cancelTask_kind (s : TSt) (t : Nat) : (s.cancelTask t).kind = s.kind := 
   · rfl
   · split <;> rfl
 
-theorem submit_kind (s : TSt) (limit : Nat) (p : ParPolicy) (c k : Nat) (hk : s.kind = .limitingPar limit p) :
-    (submit s c k).kind = .limitingPar limit p := by
-  unfold submit
+theorem submit_kind_core (s : TSt) (limit : Nat) (p : ParPolicy) (c k : Nat) (hk : s.kind = .limitingPar limit p) :
+    (submitCore s c k).kind = .limitingPar limit p := by
+  unfold submitCore
   rw [hk]
   simp only []
   split
@@ -47,12 +50,16 @@ theorem submit_kind (s : TSt) (limit : Nat) (p : ParPolicy) (c k : Nat) (hk : s.
       · simp [TSt.createTask, cancelTask_kind, hk]
   · exact hk
 
+theorem submit_kind (s : TSt) (limit : Nat) (p : ParPolicy) (c k : Nat) (hk : s.kind = .limitingPar limit p) :
+    (submit s c k).kind = .limitingPar limit p :=
+  submit_kind_core (s.emit (.submitted c)) limit p c k hk
+
 /-- `create_task` of the limiting parallel manager keeps the bound: at the limit it either drops the new
 coroutine (skip) or untracks the oldest / newest task before it tracks the new one -/
-theorem submit_bounded (s : TSt) (limit : Nat) (p : ParPolicy) (c k : Nat) (hl : 1 ≤ limit)
-    (hk : s.kind = .limitingPar limit p) (h : Bounded limit s) : Bounded limit (submit s c k) := by
+theorem submit_bounded_core (s : TSt) (limit : Nat) (p : ParPolicy) (c k : Nat) (hl : 1 ≤ limit)
+    (hk : s.kind = .limitingPar limit p) (h : Bounded limit s) : Bounded limit (submitCore s c k) := by
   unfold Bounded at *
-  unfold submit
+  unfold submitCore
   rw [hk]
   simp only []
   split
@@ -73,6 +80,10 @@ theorem submit_bounded (s : TSt) (limit : Nat) (p : ParPolicy) (c k : Nat) (hl :
         omega
   · next hlt =>
     simp [TSt.createTask]; omega
+
+theorem submit_bounded (s : TSt) (limit : Nat) (p : ParPolicy) (c k : Nat) (hl : 1 ≤ limit)
+    (hk : s.kind = .limitingPar limit p) (h : Bounded limit s) : Bounded limit (submit s c k) :=
+  submit_bounded_core (s.emit (.submitted c)) limit p c k hl hk h
 
 theorem submitAll_bounded (limit : Nat) (p : ParPolicy) (hl : 1 ≤ limit) :
     ∀ (subs : List (Nat × Nat)) (s : TSt), s.kind = .limitingPar limit p → Bounded limit s →
@@ -158,17 +169,43 @@ theorem bound (limit : Nat) (p : ParPolicy) (hl : 1 ≤ limit) (ops : List TOp) 
     exact ih _ this.1 this.2
 
 /-- **skip** closes the new coroutine unstarted and changes nothing else -/
+theorem skip_closes_core (s : TSt) (limit c k : Nat) (hk : s.kind = .limitingPar limit .skip)
+    (hfull : s.tracked.length ≥ limit) : submitCore s c k = s.emit (.closed c) := by
+  unfold submitCore; rw [hk]; simp [hfull]
+
+/-- **skip** closes the new coroutine unstarted and changes nothing else (but the bookkeeping entry of the call) -/
 theorem skip_closes (s : TSt) (limit c k : Nat) (hk : s.kind = .limitingPar limit .skip)
-    (hfull : s.tracked.length ≥ limit) : submit s c k = s.emit (.closed c) := by
-  unfold submit; rw [hk]; simp [hfull]
+    (hfull : s.tracked.length ≥ limit) : submit s c k = (s.emit (.submitted c)).emit (.closed c) :=
+  skip_closes_core (s.emit (.submitted c)) limit c k hk hfull
+
+/-- **cancel_first** cancels and untracks the OLDEST tracked task before the new one is created -/
+theorem cancel_first_oldest_core (s : TSt) (limit c k t0 : Nat) (rest : List Nat)
+    (hk : s.kind = .limitingPar limit .cancelFirst) (hfull : s.tracked.length ≥ limit) (ht : s.tracked = t0 :: rest) :
+    submitCore s c k =
+      (let s1 := { s with tracked := rest }.cancelTask t0
+       { (s1.createTask c).1 with tracked := (s1.createTask c).1.tracked ++ [(s1.createTask c).2] }) := by
+  unfold submitCore
+  rw [hk]
+  simp only []
+  rw [if_pos hfull]
+  simp only [ht]
 
 /-- **cancel_first** cancels and untracks the OLDEST tracked task before the new one is created -/
 theorem cancel_first_oldest (s : TSt) (limit c k t0 : Nat) (rest : List Nat)
     (hk : s.kind = .limitingPar limit .cancelFirst) (hfull : s.tracked.length ≥ limit) (ht : s.tracked = t0 :: rest) :
     submit s c k =
-      (let s1 := { s with tracked := rest }.cancelTask t0
+      (let s1 := { (s.emit (.submitted c)) with tracked := rest }.cancelTask t0
+       { (s1.createTask c).1 with tracked := (s1.createTask c).1.tracked ++ [(s1.createTask c).2] }) :=
+  cancel_first_oldest_core (s.emit (.submitted c)) limit c k t0 rest hk hfull ht
+
+/-- **cancel_last** cancels and untracks the NEWEST tracked task before the new one is created -/
+theorem cancel_last_newest_core (s : TSt) (limit c k t0 : Nat)
+    (hk : s.kind = .limitingPar limit .cancelLast) (hfull : s.tracked.length ≥ limit)
+    (ht : s.tracked.getLast? = some t0) :
+    submitCore s c k =
+      (let s1 := { s with tracked := s.tracked.dropLast }.cancelTask t0
        { (s1.createTask c).1 with tracked := (s1.createTask c).1.tracked ++ [(s1.createTask c).2] }) := by
-  unfold submit
+  unfold submitCore
   rw [hk]
   simp only []
   rw [if_pos hfull]
@@ -179,25 +216,28 @@ theorem cancel_last_newest (s : TSt) (limit c k t0 : Nat)
     (hk : s.kind = .limitingPar limit .cancelLast) (hfull : s.tracked.length ≥ limit)
     (ht : s.tracked.getLast? = some t0) :
     submit s c k =
-      (let s1 := { s with tracked := s.tracked.dropLast }.cancelTask t0
-       { (s1.createTask c).1 with tracked := (s1.createTask c).1.tracked ++ [(s1.createTask c).2] }) := by
-  unfold submit
-  rw [hk]
-  simp only []
-  rw [if_pos hfull]
-  simp only [ht]
+      (let s1 := { (s.emit (.submitted c)) with tracked := s.tracked.dropLast }.cancelTask t0
+       { (s1.createTask c).1 with tracked := (s1.createTask c).1.tracked ++ [(s1.createTask c).2] }) :=
+  cancel_last_newest_core (s.emit (.submitted c)) limit c k t0 hk hfull ht
 
 /-- ... and the victim gets its `CancelledError` before the new coroutine takes its first step: a victim that is
 waiting (suspended in an `await`) is woken first, the first step of the new task is scheduled behind it, so more
 than `limit` coroutine bodies are never live -/
-theorem victim_cancelled_before_replacement (s : TSt) (limit c k t0 : Nat) (rest : List Nat)
+theorem victim_cancelled_before_replacement_core (s : TSt) (limit c k t0 : Nat) (rest : List Nat)
     (hk : s.kind = .limitingPar limit .cancelFirst) (hfull : s.tracked.length ≥ limit) (ht : s.tracked = t0 :: rest)
     (hsus : (s.task t0).status = .suspended) (hnc : (s.task t0).cancelReq = false) :
-    (submit s c k).ready = s.ready ++ [.resumeCancel t0, .step s.tasks.length] := by
-  rw [cancel_first_oldest s limit c k t0 rest hk hfull ht]
+    (submitCore s c k).ready = s.ready ++ [.resumeCancel t0, .step s.tasks.length] := by
+  rw [cancel_first_oldest_core s limit c k t0 rest hk hfull ht]
   have ht0 : ({ s with tracked := rest } : TSt).task t0 = s.task t0 := rfl
   simp only [TSt.cancelTask, ht0, hsus, hnc, TSt.createTask, TSt.setTask]
   simp
+
+/-- ... and the victim gets its `CancelledError` before the new coroutine takes its first step (see the core lemma) -/
+theorem victim_cancelled_before_replacement (s : TSt) (limit c k t0 : Nat) (rest : List Nat)
+    (hk : s.kind = .limitingPar limit .cancelFirst) (hfull : s.tracked.length ≥ limit) (ht : s.tracked = t0 :: rest)
+    (hsus : (s.task t0).status = .suspended) (hnc : (s.task t0).cancelReq = false) :
+    (submit s c k).ready = s.ready ++ [.resumeCancel t0, .step s.tasks.length] :=
+  victim_cancelled_before_replacement_core (s.emit (.submitted c)) limit c k t0 rest hk hfull ht hsus hnc
 
 /-- a finished task frees its slot: the done callback removes it from the tracked tasks -/
 theorem slot_freed (s : TSt) (limit : Nat) (p : ParPolicy) (t : Nat) (hk : s.kind = .limitingPar limit p) :
@@ -209,14 +249,52 @@ theorem slot_freed (s : TSt) (limit : Nat) (p : ParPolicy) (t : Nat) (hk : s.kin
 
 /-- the unbounded manager creates a task for EVERY submitted coroutine and tracks it (strong reference)
 until its done callback -/
+theorem unbounded_starts_and_tracks_core (s : TSt) (c k : Nat) (hk : s.kind = .parallel) :
+    (submitCore s c k).tasks = s.tasks ++ [{ coro := c }] ∧ (submitCore s c k).tracked = s.tracked ++ [s.tasks.length] ∧
+    (submitCore s c k).ready = s.ready ++ [.step s.tasks.length] := by
+  unfold submitCore; rw [hk]; simp [TSt.createTask]
+
+/-- the unbounded manager creates a task for EVERY submitted coroutine and tracks it until its done callback -/
 theorem unbounded_starts_and_tracks (s : TSt) (c k : Nat) (hk : s.kind = .parallel) :
     (submit s c k).tasks = s.tasks ++ [{ coro := c }] ∧ (submit s c k).tracked = s.tracked ++ [s.tasks.length] ∧
-    (submit s c k).ready = s.ready ++ [.step s.tasks.length] := by
-  unfold submit; rw [hk]; simp [TSt.createTask]
+    (submit s c k).ready = s.ready ++ [.step s.tasks.length] :=
+  unbounded_starts_and_tracks_core (s.emit (.submitted c)) c k hk
+
+/-! ### conservation (`Lemmas/Conserve.lean`, `Lemmas/StartsOnce.lean`) -/
+
+/-- every coroutine handed to a parallel manager (bounded or not) is accounted for in every reachable state: it has
+exactly one task or — limiting manager, policy skip — was closed unstarted, and its body was entered at most once -/
+theorem every_submission_accounted (k : MgrKind) (ops : List TOp) (c : Nat)
+    (hs : cSub c (runT { kind := k } ops).log = 1) :
+    let s := runT { kind := k } ops
+    ((cQueue c s.queue = 1 ∧ cTasks c s.tasks = 0 ∧ cClosed c s.log = 0) ∨
+     (cQueue c s.queue = 0 ∧ cTasks c s.tasks = 1 ∧ cClosed c s.log = 0) ∨
+     (cQueue c s.queue = 0 ∧ cTasks c s.tasks = 0 ∧ cClosed c s.log = 1)) ∧ cEnter c s.log ≤ 1 :=
+  submitted_once k ops c hs
+
+/-- **strong references until done, forgotten afterwards**: in every state the unbounded parallel manager can reach,
+the set of tracked tasks is exactly the set of tasks whose done callback has not run yet — a task is tracked from
+`create_task` until it is done and not a moment longer — and no task is tracked twice -/
+theorem unbounded_tracks_exactly (ops : List TOp) (t : Nat) :
+    let s := runT { kind := .parallel } ops
+    (t ∈ s.tracked ↔ (t < s.tasks.length ∧ (s.task t).delivered = false)) ∧ s.tracked.Nodup :=
+  ⟨(tracked_exact_reachable ops).mem t, (tracked_exact_reachable ops).nodup⟩
+
+/-- **a finished task never holds a slot**: in every state the limiting parallel manager can reach (any limit, any
+policy), every tracked task exists, its done callback has not run yet, and no task is tracked twice — together with
+`bound`: never more than `limit` live tasks are tracked -/
+theorem limiting_tracks_only_live (limit : Nat) (p : ParPolicy) (ops : List TOp) :
+    let s := runT { kind := .limitingPar limit p } ops
+    (∀ t ∈ s.tracked, t < s.tasks.length ∧ (s.task t).delivered = false) ∧ s.tracked.Nodup :=
+  ⟨(tracked_live_reachable (.limitingPar limit p) trivial ops).mem, (tracked_live_reachable (.limitingPar limit p) trivial ops).nodup⟩
 
 -- non-vacuity (executable checks): limit 2, cancel_first: the third submission cancels the first coroutine
-#guard ((runT { kind := .limitingPar 2 .cancelFirst } [.submit 1 0, .submit 2 0, .submit 3 0]).log.reverse
+#guard (observable (runT { kind := .limitingPar 2 .cancelFirst } [.submit 1 0, .submit 2 0, .submit 3 0]).log
   == [.enter 1, .enter 2, .cancelled 1, .enter 3])
 #guard (runT { kind := .limitingPar 2 .cancelFirst } [.submit 1 0, .submit 2 0, .submit 3 0]).tracked.length == 2
+
+#guard cSub 3 (runT { kind := .limitingPar 2 .skip } [.submit 1 0, .submit 2 0, .submit 3 0]).log == 1
+#guard cClosed 3 (runT { kind := .limitingPar 2 .skip } [.submit 1 0, .submit 2 0, .submit 3 0]).log == 1
+#guard cTasks 2 (runT { kind := .parallel } [.submit 1 0, .submit 2 0, .submit 3 0]).tasks == 1
 
 end Ea.C12
